@@ -59,14 +59,47 @@ class UnitV(V):
 
 
 class StructV(V):
-    def __init__(self, path, names, fields, targs=None):
+    """struct value.  `paths` (optional) maps a canonical field name of the pinned tree to the index path at which that piece
+    of private state now lives inside nested private structs (fields grouped into a sub-struct / wrapped in a newtype, see
+    Facts._canonicalise_fields): `get` / `set` / `has` accept both kinds of name."""
+
+    def __init__(self, path, names, fields, targs=None, paths=None):
         self.path = path
         self.names = names
         self.fields = fields
         self.targs = targs
+        self.paths = paths
+
+    def has(self, name):
+        return name in self.names or bool(self.paths and name in self.paths)
 
     def get(self, name):
+        if name not in self.names and self.paths and name in self.paths:
+            cur = self
+            for i in self.paths[name]:
+                cur = cur.fields[i]
+            return cur
         return self.fields[self.names.index(name)]
+
+    def set(self, name, v):
+        if name not in self.names and self.paths and name in self.paths:
+            cur = self
+            for i in self.paths[name][:-1]:
+                cur = cur.fields[i]
+            cur.fields[self.paths[name][-1]] = v
+            return
+        self.fields[self.names.index(name)] = v
+
+    def path_names(self):
+        """dotted actual-name path -> canonical name, for translating write sets"""
+        out = {}
+        for cn, pth in (self.paths or {}).items():
+            cur, parts = self, []
+            for i in pth:
+                parts.append(cur.names[i])
+                cur = cur.fields[i]
+            out['.'.join(parts)] = cn
+        return out
 
     def __repr__(self):
         return '%s{%s}' % (self.path.split('::')[-1], ', '.join('%s: %r' % (n, f) for n, f in zip(self.names, self.fields)))
@@ -439,7 +472,12 @@ class Interp:
                 names = [f['name'] for f in v['fields']]
                 fields = [self.sym_value(st, self.subst_ty(f['ty'], tenv), '%s.%s' % (name, f['name']), tenv, depth + 1)
                           for f in v['fields']]
-                sv = StructV(path, names, fields, targs=tenv)
+                sv = StructV(path, names, fields, targs=tenv, paths=adt.get('canon_paths'))
+                for cn, pth in (adt.get('canon_paths') or {}).items():
+                    # the relocated leaf gets the symbol name the rules know it by
+                    lt = adt.get('canon_leaf_ty', {}).get(cn)
+                    if lt is not None:
+                        sv.set(cn, self.sym_value(st, self.subst_ty(lt, tenv), '%s.%s' % (name, cn), tenv, depth + 1))
                 inv = self.invariant_for(path)
                 if inv is not None:
                     inv(st, sv)
@@ -1061,7 +1099,7 @@ class Interp:
                 adt_ = self.facts.adts.get(rv['path'])
                 if adt_ and adt_.get('kind') == 'struct' and len(adt_['variants'][0]['fields']) == len(names):
                     names = [f['name'] for f in adt_['variants'][0]['fields']]   # canonical names (renamed private fields, sa/facts.py)
-                return StructV(rv['path'], names, fields, targs=tenv)
+                return StructV(rv['path'], names, fields, targs=tenv, paths=(adt_ or {}).get('canon_paths'))
             if agg == 'closure':
                 return ClosureV(rv['path'], fields)
             if agg == 'array':
